@@ -8,6 +8,7 @@ import (
 	"sort"
 	"strings"
 	"sync"
+	"sync/atomic"
 	"time"
 
 	"verif/internal/ev"
@@ -150,7 +151,7 @@ func judgeQuiescent(r *ev.Run, s *sutc.SUT, name, scenario string, detail map[st
 }
 
 func c20(r *ev.Run) {
-	r.Rule("fixed scenario list x PRNG parameters, each ending in quiescence (client connections closed or service stopped; two identical stat dumps >= 50 ms apart): normal / multi-key traffic, invalid and unsupported requests, MOVED and ASK redirections, backend reset and silence with requests in flight, connection-limit rejections, client disconnecting with requests in flight, service stopped while connections are open (idle, and with pipelines and redirections in flight); the same for a TCP service (traffic, dial failures, host removal, stop while open); distinct = distinct scenarios x parameter classes")
+	r.Rule("fixed scenario list x PRNG parameters, each ending in quiescence (client connections closed or service stopped; two identical stat dumps >= 50 ms apart): normal / multi-key traffic, invalid and unsupported requests, MOVED and ASK redirections, backend reset and silence with requests in flight, connection-limit rejections, client disconnecting with requests in flight, service stopped while connections are open (idle, and with pipelines and redirections in flight); the same for a TCP service (traffic, dial failures, host removal, a host flapping under arriving connections, stop while open); distinct = distinct scenarios x parameter classes")
 	r.Assume("quiescence = every client connection of the scenario closed (or the service stopped), simulated nodes idle, two identical stat dumps >= 50 ms apart; equations still false then are re-read for up to 5 s (connect timeout 3 s) before they count")
 	r.Assume("stat names follow utils.BuildStats: service.<name>.{downstream,upstream}.{cx_total,cx_destroy_total,cx_active,rq_total,rq_success_total,rq_failure_total} and service.<name>.redis.<cmd>.{total,success,error}")
 	s, err := startSUT(r, false, 200, 20)
@@ -176,7 +177,7 @@ func c20(r *ev.Run) {
 		}
 		c20TCP(r, s, rnd, round)
 	}
-	r.Require("scenarios_judged", int64(rounds*9))
+	r.Require("scenarios_judged", int64(rounds*10))
 }
 
 func c20Redis(r *ev.Run, s *sutc.SUT, rnd *rand.Rand, round int) {
@@ -188,6 +189,7 @@ func c20Redis(r *ev.Run, s *sutc.SUT, rnd *rand.Rand, round int) {
 		live bool // traffic keeps flowing until the stop closes the connections (no wait for idle nodes before the stop)
 	}
 	var liveWg sync.WaitGroup
+	var liveStop chan struct{} // closed once the stop of a "live" scenario has returned
 	traffic := func(svc *RedisSvc, nconn, nreq int, mix string) []*rclient.Conn {
 		var conns []*rclient.Conn
 		var wg sync.WaitGroup
@@ -368,6 +370,27 @@ func c20Redis(r *ev.Run, s *sutc.SUT, rnd *rand.Rand, round int) {
 				cl.SetOwnerLocked(sl, ms[rnd.Intn(len(ms))])
 			}
 			cl.Unlock()
+			// ... and it stays stale: slots keep changing hands every few milliseconds until the stop has returned
+			liveStop = make(chan struct{})
+			liveWg.Add(1)
+			go func(stop chan struct{}) {
+				defer liveWg.Done()
+				rr := rand.New(rand.NewSource(int64(round) + 77))
+				for {
+					select {
+					case <-stop:
+						return
+					case <-time.After(3 * time.Millisecond):
+					}
+					cl.Lock()
+					base := rr.Intn(fakecluster.NumSlots)
+					to := ms[rr.Intn(len(ms))]
+					for sl := base; sl < base+3000 && sl < fakecluster.NumSlots; sl++ {
+						cl.SetOwnerLocked(sl, to)
+					}
+					cl.Unlock()
+				}
+			}(liveStop)
 			nc := 6 + rnd.Intn(7)
 			for c := 0; c < nc; c++ {
 				conn, err := svc.Dial()
@@ -454,10 +477,18 @@ func c20Redis(r *ev.Run, s *sutc.SUT, rnd *rand.Rand, round int) {
 		if sc.stop {
 			if err := s.StopProc(svc.Name, 15*time.Second); err != nil {
 				r.Inconclusive("stop-did-not-return:" + sc.name)
+				if liveStop != nil {
+					close(liveStop)
+					liveStop = nil
+				}
 				cl.Close()
 				liveWg.Wait()
 				continue
 			}
+		}
+		if liveStop != nil {
+			close(liveStop)
+			liveStop = nil
 		}
 		liveWg.Wait()
 		judgeQuiescent(r, s, svc.Name, sc.name, detail)
@@ -521,6 +552,37 @@ func c20TCP(r *ev.Run, s *sutc.SUT, rnd *rand.Rand, round int) {
 				echoOnce(svc.Addr, 10)
 			}
 			return nil
+		}},
+		{name: "tcp-host-flapping-under-arriving-connections", run: func(svc *TCPSvc, bs []*tcpsim.Backend) map[string]interface{} {
+			// one of the two hosts is removed and added again in a loop while connections arrive: removals land at every point of a
+			// connection's life, also between the selection of the host and the end of the dial
+			stop := make(chan struct{})
+			var wg sync.WaitGroup
+			var conns int64
+			for g := 0; g < 16; g++ {
+				wg.Add(1)
+				go func() {
+					defer wg.Done()
+					for {
+						select {
+						case <-stop:
+							return
+						default:
+						}
+						echoOnce(svc.Addr, 10)
+						atomic.AddInt64(&conns, 1)
+					}
+				}()
+			}
+			hs := []sutc.Host{{Addr: bs[0].Addr}}
+			flaps := 0
+			for ; flaps < 20000 && atomic.LoadInt64(&conns) < 15000; flaps++ {
+				s.HostOp("host_remove", svc.Name, hs)
+				s.HostOp("host_add", svc.Name, hs)
+			}
+			close(stop)
+			wg.Wait()
+			return map[string]interface{}{"flaps": flaps, "connections": atomic.LoadInt64(&conns)}
 		}},
 		{name: "tcp-host-removed-with-open-connections", run: func(svc *TCPSvc, bs []*tcpsim.Backend) map[string]interface{} {
 			var open []net.Conn
